@@ -10,6 +10,9 @@ use crate::util::*;
 use rssl_ast as ast;
 use rssl_text::Located;
 
+#[path = "c09_stmt.rs"]
+mod stmt;
+
 // ------------------------------------------------------------------------------------------ s-expressions
 #[derive(Clone, Debug, PartialEq)]
 pub enum SExp {
@@ -1798,6 +1801,29 @@ fn run_request(line: &str, out: &mut Out, hist: &mut Stats) {
             }
             out.case(line, &o.obs, &o.oracle);
         }
+        ["C09.st", tree] => {
+            let t = match parse_sexp(tree) {
+                Some(t) => t,
+                None => {
+                    out.case(line, "bad-request", "SKIP:bad request");
+                    return;
+                }
+            };
+            let mut o = stmt::run_stmt(&t);
+            hist.total += 1;
+            hist.ctx.add("st");
+            count_nodes(&t, &mut hist.nodes, &mut hist.ops);
+            let k = if o.oracle == "ok" { "ok".to_string() } else { o.oracle.chars().take(48).collect() };
+            hist.outcome.add(&k);
+            if o.oracle.starts_with("FAIL") {
+                let kind = fail_kind(&o.oracle);
+                let min = stmt::shrink_stmt(&t, &kind);
+                let key = format!("st {} {}", kind, min.show());
+                hist.classes.add(&key);
+                o.oracle = format!("{} min={}", o.oracle, key);
+            }
+            out.case(line, &o.obs, &o.oracle);
+        }
         ["C09.src", hexsrc] => {
             let text = match unhex(hexsrc).and_then(|b| String::from_utf8(b).ok()) {
                 Some(t) => t,
@@ -2387,6 +2413,24 @@ pub fn run(args: &Args, out: &mut Out) {
         let line = format!("C09.src\t{}", hex(text.as_bytes()));
         run_request(&line, out, &mut st);
     }
+    // stream 5: the statements of such programs as trees (ambiguous declaration/expression nodes resolved), which the
+    // model prints and reads back as well
+    let mut sg2 = SrcGen {
+        rng: g.rng.fork(),
+        kinds: Hist::default(),
+    };
+    let mut st5 = Stats::default();
+    let want = if thorough { 40000 } else { 3000 };
+    let mut made = 0;
+    while made < want {
+        let text = sg2.module();
+        for t in stmt::statements_of(&text) {
+            let line = format!("C09.st\t{}", t.show());
+            run_request(&line, out, &mut st5);
+            made += 1;
+        }
+    }
+    out.stat(&st5.json("statement-trees"));
     out.stat(&format!(
         "{{\"stream\":\"source-modules\",\"cases\":{},\"statement_kinds\":{},\"outcomes\":{},\"minimal_failing_shapes\":{}}}",
         st.total,
